@@ -3,8 +3,10 @@ C20 — NodePool registration health reflects the recent launch window.
 
 Property theorems only (helper lemmas live in `Karp/Proofs/RingLemmas.lean`).
 Model: `Karp/Model/Ring.lean` (ring buffer, tracker, what-if, condition update),
-       `Karp/Model/PoolHealth.lean` (the registrationhealth controller and the two lifecycle call sites
-       acting on one NodePool: hydration, reset guard, generations).
+       `Karp/Model/PoolHealth.lean` (the registrationhealth controller and the nodeclaim lifecycle
+       controller acting on one NodePool: hydration, reset guard, generations; one pass of
+       `Controller.Reconcile` over a NodeClaim — registration and liveness in the order of the source —,
+       the controller looking in time / late / repeatedly, one failed NodePool call per event + retry).
 Spec:  `Karp/Spec/Window.lean` (log of outcomes since the last reset; last 4 entries),
        `Karp/Spec/PoolHealth.lean` (the condition an operator reads along the pool's life).
 -/
@@ -292,34 +294,243 @@ theorem tracker_new_unknown : Tracker.new.status = .unknown := by decide
 theorem started_refines : PoolRefines Pool.started Karp.Spec.PoolHealth.S.init :=
   reconcile_reset Pool.created [] refines_new (by decide)
 
+/-! ### The lifecycle controller looking at one NodeClaim: what an attempt leaves of the pool
+
+`Karp.PoolHealth.step` plays every attempt through `Controller.Reconcile` (sub-reconcilers in the
+order of the source, `Karp.Gen.Health.lifecycleOrder`), once per look and once more after a failed
+NodePool call.  The lemmas below compute it. -/
+
+set_option linter.unusedSimpArgs false
+
+/-- the sub-reconcilers run in an order in which registration sees the Node before liveness judges the
+    timeouts (a NodeClaim whose Node has joined is a success however late the controller looks) -/
+theorem fact_registration_before_liveness :
+    Karp.Gen.Health.lifecycleOrder.idxOf "registration" < Karp.Gen.Health.lifecycleOrder.idxOf "liveness" ∧
+    Karp.Gen.Health.lifecycleOrder.idxOf "liveness" < Karp.Gen.Health.lifecycleOrder.length := by decide
+
+/-- `Liveness.updateNodePoolRegistrationHealth` records the failure after the status patch went through, in
+    place (not deferred): a failed patch returns before it, and the retry records the attempt — once -/
+theorem fact_liveness_records_after_patch :
+    Karp.Gen.Health.livenessHealthCalls = ["kubeClient.Get", "DryRun", "Patch", "Update"] := by decide
+
+theorem fact_registration_records_after_patch :
+    Karp.Gen.Health.registrationHealthCalls = ["kubeClient.Get", "DryRun", "SetTrue", "Patch", "Update"] := by decide
+
+/-- each timeout branch of `Liveness.Reconcile` records, then deletes -/
+theorem fact_liveness_branches :
+    Karp.Gen.Health.livenessCalls = ["updateNodePoolRegistrationHealth", "deleteNodeClaimForTimeout",
+      "updateNodePoolRegistrationHealth", "deleteNodeClaimForTimeout"] := by decide
+
+/-- `Registration.Reconcile` marks the NodeClaim Registered BEFORE it updates the NodePool — the order
+    behind finding `C20-success-lost-on-nodepool-api-failure` (the model's `registrationStep` follows it) -/
+theorem fact_registered_before_counted :
+    Karp.Gen.Health.registrationCalls = ["SetTrue", "updateNodePoolRegistrationHealth"] := by decide
+
+theorem step_success (p : Pool) (f : Fault) : Karp.PoolHealth.step p (.success f) = registeredF p f := by
+  cases f
+  · simp [Karp.PoolHealth.step, attempt, looks, look, pass, Karp.Gen.Health.lifecycleOrder, subStep,
+      registrationStep, livenessStep, Claim.fresh, Look.joined, registeredF]
+  · simp [Karp.PoolHealth.step, attempt, looks, look, pass, Karp.Gen.Health.lifecycleOrder, subStep,
+      registrationStep, livenessStep, Claim.fresh, Look.joined, registeredF]
+  · by_cases h : patchTrue p <;>
+    simp [Karp.PoolHealth.step, attempt, looks, look, pass, Karp.Gen.Health.lifecycleOrder, subStep,
+      registrationStep, livenessStep, Claim.fresh, Look.joined, registeredF, h]
+
+/-- **C20_pool_late_success_once** — a NodeClaim whose Node has joined counts as ONE success also when the
+    controller looks at it only after the registration (and launch) timeout: registration runs before
+    liveness, and liveness leaves a Registered NodeClaim alone. -/
+theorem C20_pool_late_success_once (p : Pool) (f : Fault) :
+    Karp.PoolHealth.step p (.lateSuccess f) = Karp.PoolHealth.step p (.success f) := by
+  rw [step_success]
+  cases f
+  · simp [Karp.PoolHealth.step, attempt, looks, look, pass, Karp.Gen.Health.lifecycleOrder, subStep,
+      registrationStep, livenessStep, Claim.fresh, Look.joinedLate, registeredF]
+  · simp [Karp.PoolHealth.step, attempt, looks, look, pass, Karp.Gen.Health.lifecycleOrder, subStep,
+      registrationStep, livenessStep, Claim.fresh, Look.joinedLate, registeredF]
+  · by_cases h : patchTrue p <;>
+    simp [Karp.PoolHealth.step, attempt, looks, look, pass, Karp.Gen.Health.lifecycleOrder, subStep,
+      registrationStep, livenessStep, Claim.fresh, Look.joinedLate, registeredF, h]
+
+/-- **C20_pool_slow_success_once** — looking at the NodeClaim before its Node joins and again after it is
+    Registered records nothing: the attempt counts once. -/
+theorem C20_pool_slow_success_once (p : Pool) (f : Fault) :
+    Karp.PoolHealth.step p (.slowSuccess f) = Karp.PoolHealth.step p (.success f) := by
+  rw [step_success]
+  cases f
+  · simp [Karp.PoolHealth.step, attempt, looks, look, pass, Karp.Gen.Health.lifecycleOrder, subStep,
+      registrationStep, livenessStep, Claim.fresh, Look.joined, Look.waiting, registeredF]
+  · simp [Karp.PoolHealth.step, attempt, looks, look, pass, Karp.Gen.Health.lifecycleOrder, subStep,
+      registrationStep, livenessStep, Claim.fresh, Look.joined, Look.waiting, registeredF]
+  · by_cases h : patchTrue p <;>
+    simp [Karp.PoolHealth.step, attempt, looks, look, pass, Karp.Gen.Health.lifecycleOrder, subStep,
+      registrationStep, livenessStep, Claim.fresh, Look.joined, Look.waiting, registeredF, h]
+
+theorem step_failure (p : Pool) (f : Fault) : Karp.PoolHealth.step p (.failure f) = timedOut p := by
+  cases f
+  · simp [Karp.PoolHealth.step, attempt, looks, look, pass, Karp.Gen.Health.lifecycleOrder, subStep,
+      registrationStep, livenessStep, Claim.fresh, Look.allTimeouts, Look.waiting]
+  · simp [Karp.PoolHealth.step, attempt, looks, look, pass, Karp.Gen.Health.lifecycleOrder, subStep,
+      registrationStep, livenessStep, Claim.fresh, Look.allTimeouts, Look.waiting]
+  · by_cases h : patchFalse p <;>
+    simp [Karp.PoolHealth.step, attempt, looks, look, pass, Karp.Gen.Health.lifecycleOrder, subStep,
+      registrationStep, livenessStep, Claim.fresh, Look.allTimeouts, Look.waiting, h]
+
+theorem step_launchFailure (p : Pool) (f : Fault) : Karp.PoolHealth.step p (.launchFailure f) = timedOut p := by
+  cases f
+  · simp [Karp.PoolHealth.step, attempt, looks, look, pass, Karp.Gen.Health.lifecycleOrder, subStep,
+      registrationStep, livenessStep, Claim.fresh, Look.launchTimeout, Look.waiting]
+  · simp [Karp.PoolHealth.step, attempt, looks, look, pass, Karp.Gen.Health.lifecycleOrder, subStep,
+      registrationStep, livenessStep, Claim.fresh, Look.launchTimeout, Look.waiting]
+  · by_cases h : patchFalse p <;>
+    simp [Karp.PoolHealth.step, attempt, looks, look, pass, Karp.Gen.Health.lifecycleOrder, subStep,
+      registrationStep, livenessStep, Claim.fresh, Look.launchTimeout, Look.waiting, h]
+
+theorem step_lateFailure (p : Pool) (f : Fault) : Karp.PoolHealth.step p (.lateFailure f) = timedOut p := by
+  cases f
+  · simp [Karp.PoolHealth.step, attempt, looks, look, pass, Karp.Gen.Health.lifecycleOrder, subStep,
+      registrationStep, livenessStep, Claim.fresh, Look.allTimeouts, Look.waiting]
+  · simp [Karp.PoolHealth.step, attempt, looks, look, pass, Karp.Gen.Health.lifecycleOrder, subStep,
+      registrationStep, livenessStep, Claim.fresh, Look.allTimeouts, Look.waiting]
+  · by_cases h : patchFalse p <;>
+    simp [Karp.PoolHealth.step, attempt, looks, look, pass, Karp.Gen.Health.lifecycleOrder, subStep,
+      registrationStep, livenessStep, Claim.fresh, Look.allTimeouts, Look.waiting, h]
+
+/-- **C20_pool_failure_fault_invisible** — a failed launch occupies exactly one slot of the window whatever
+    NodePool call failed while it was being recorded: the failing pass returns before `Update` and before
+    the NodeClaim is deleted, the retry records it, and nothing records it a second time.  Holds for every
+    pool state (no invariant needed) and for the three ways a launch fails. -/
+theorem C20_pool_failure_fault_invisible (p : Pool) (f : Fault) :
+    Karp.PoolHealth.step p (.failure f) = Karp.PoolHealth.step p (.failure .none) ∧
+    Karp.PoolHealth.step p (.launchFailure f) = Karp.PoolHealth.step p (.launchFailure .none) ∧
+    Karp.PoolHealth.step p (.lateFailure f) = Karp.PoolHealth.step p (.lateFailure .none) := by
+  simp only [step_failure, step_launchFailure, step_lateFailure, and_self]
+
 /-! ### One event -/
 
-/-- **C20_pool_step** — every event keeps the controllers' view and the operator-level specification
-    in step. -/
-theorem C20_pool_step (p : Pool) (s : SP) (e : Ev) (h : PoolRefines p s) :
-    PoolRefines (Karp.PoolHealth.step p e) (Karp.Spec.PoolHealth.step s e) := by
+theorem registered_refines (p : Pool) (s : SP) (h : PoolRefines p s) :
+    PoolRefines (registered p) (Karp.Spec.PoolHealth.recordSuccess s) := by
+  have hd := dry_status p.t s.log true h.tr
+  simp only [Karp.Spec.PoolHealth.recordSuccess, registered, recordSuccess, hd, specHealth_eq]
+  refine ⟨refines_insert _ _ _ h.tr, by simp [h.present], ?_, ?_, h.classObs, by simp⟩
+  · have hc := h.cond
+    cases hh : Karp.Spec.PoolHealth.healthOf (s.log ++ [true]) <;> simp [toStatus, hc] <;> rfl
+  · cases hh : Karp.Spec.PoolHealth.healthOf (s.log ++ [true]) <;> simp [toStatus, h.condGen]
+
+theorem timedOut_refines (p : Pool) (s : SP) (h : PoolRefines p s) :
+    PoolRefines (timedOut p) (Karp.Spec.PoolHealth.recordFailure s) := by
+  have hd := dry_status p.t s.log false h.tr
+  simp only [Karp.Spec.PoolHealth.recordFailure, timedOut, recordFailure, hd, specHealth_eq]
+  refine ⟨refines_insert _ _ _ h.tr, by simp [h.present], ?_, ?_, h.classObs, by simp⟩
+  · have hc := h.cond
+    cases hh : Karp.Spec.PoolHealth.healthOf (s.log ++ [false]) <;> simp [toStatus, h.cond]
+    by_cases hf : p.cond = Cond.false_
+    · rw [hf] at hc; simp [hf, condSpec] at hc ⊢
+    · simp [hf, condSpec]
+  · cases hh : Karp.Spec.PoolHealth.healthOf (s.log ++ [false]) <;> simp [toStatus, h.condGen]
+
+/-- the status patch of a registration is issued exactly when the specification's window turns healthy
+    while the condition is not True yet -/
+theorem patchTrue_iff (p : Pool) (s : SP) (h : PoolRefines p s) :
+    patchTrue p = true ↔ (Karp.Spec.PoolHealth.healthOf (s.log ++ [true]) = .healthy ∧ s.cond ≠ .true_) := by
+  have hd := dry_status p.t s.log true h.tr
+  have hc := h.cond
+  simp only [patchTrue, hd, specHealth_eq, h.present, h.condGen]
+  cases hh : Karp.Spec.PoolHealth.healthOf (s.log ++ [true]) <;>
+    cases hp : p.cond <;> rw [hp] at hc <;> simp only [condSpec] at hc <;> rw [← hc] <;> simp [toStatus]
+
+/-- a registration under fault `f`: either counted as the specification says, or — the known deviation —
+    not at all -/
+theorem registeredF_refines (p : Pool) (s : SP) (f : Fault) (h : PoolRefines p s) :
+    PoolRefines (registeredF p f)
+      (if Karp.Spec.PoolHealth.lostSuccess s f then s else Karp.Spec.PoolHealth.recordSuccess s) := by
+  cases f with
+  | none => simpa [registeredF, Karp.Spec.PoolHealth.lostSuccess] using registered_refines p s h
+  | get => simpa [registeredF, Karp.Spec.PoolHealth.lostSuccess] using h
+  | patch =>
+    have hi := patchTrue_iff p s h
+    by_cases hp : patchTrue p = true
+    · have := hi.mp hp
+      simpa [registeredF, Karp.Spec.PoolHealth.lostSuccess, hp, this.1, this.2] using h
+    · have hn : ¬ (Karp.Spec.PoolHealth.healthOf (s.log ++ [true]) = .healthy ∧ s.cond ≠ .true_) :=
+        fun hx => hp (hi.mpr hx)
+      have hl : Karp.Spec.PoolHealth.lostSuccess s .patch = false := by
+        simp only [Karp.Spec.PoolHealth.lostSuccess]
+        by_cases h1 : Karp.Spec.PoolHealth.healthOf (s.log ++ [true]) = .healthy
+        · have : s.cond = .true_ := by
+            by_cases h2 : s.cond = .true_
+            · exact h2
+            · exact absurd ⟨h1, h2⟩ hn
+          simp [this]
+        · simp [h1]
+      simpa [registeredF, hp, hl] using registered_refines p s h
+
+theorem reconcileF_refines (p : Pool) (log : List Bool) (f : Fault) (h : Refines p.t log) (hr : needsReset p = true) :
+    PoolRefines (reconcileF p f) { cond := .unknown, log := [] } := by
+  unfold reconcileF
+  by_cases hf : f = .patch
+  · simp only [hf, hr, and_self, if_true]
+    obtain ⟨log', hl⟩ := hydrate_refines p log h
+    exact reconcile_reset _ [] (refines_reset _ _ hl) (by simpa [needsReset] using hr)
+  · simp only [hf, false_and, if_false]
+    exact reconcile_reset p log h hr
+
+/-- **C20_pool_step_known** — every event (any timing of the controller's looks, any failed NodePool call
+    followed by its retry) keeps the controllers' view in step with the operator-level specification,
+    except that a registration whose NodePool call failed is not counted (`Spec.PoolHealth.stepKnown`).
+
+    The property asks for more, and that FAILS (finding `C20-success-lost-on-nodepool-api-failure`,
+    witness `C20_pool_success_lost` below, replayed on the real controllers by corpus/c20.pool):
+
+      theorem C20_pool_step (p : Pool) (s : SP) (e : Ev) (h : PoolRefines p s) :
+          PoolRefines (Karp.PoolHealth.step p e) (Karp.Spec.PoolHealth.step s e)
+
+    `C20_pool_step_partial` is that statement for every event the deviation does not concern. -/
+theorem C20_pool_step_known (p : Pool) (s : SP) (e : Ev) (h : PoolRefines p s) :
+    PoolRefines (Karp.PoolHealth.step p e) (Karp.Spec.PoolHealth.stepKnown s e) := by
   cases e with
-  | lateFailure =>
-    have hd := dry_status p.t s.log false h.tr
-    simp only [Karp.PoolHealth.step, Karp.Spec.PoolHealth.step, Karp.Spec.PoolHealth.recordFailure, timedOut,
-      recordFailure, hd, specHealth_eq]
-    refine ⟨refines_insert _ _ _ h.tr, by simp [h.present], ?_, ?_, h.classObs, by simp⟩
-    · have hc := h.cond
-      cases hh : Karp.Spec.PoolHealth.healthOf (s.log ++ [false]) <;> simp [toStatus, h.cond]
-      by_cases hf : p.cond = Cond.false_
-      · rw [hf] at hc; simp [hf, condSpec] at hc ⊢
-      · simp [hf, condSpec]
-    · cases hh : Karp.Spec.PoolHealth.healthOf (s.log ++ [false]) <;> simp [toStatus, h.condGen]
+  | success f =>
+    rw [step_success]
+    have hr := registeredF_refines p s f h
+    cases hl : Karp.Spec.PoolHealth.lostSuccess s f <;>
+      simp only [Karp.Spec.PoolHealth.stepKnown, Karp.Spec.PoolHealth.lost, Karp.Spec.PoolHealth.step, hl,
+        Bool.false_eq_true, if_false, if_true] at hr ⊢ <;> exact hr
+  | lateSuccess f =>
+    rw [C20_pool_late_success_once, step_success]
+    have hr := registeredF_refines p s f h
+    cases hl : Karp.Spec.PoolHealth.lostSuccess s f <;>
+      simp only [Karp.Spec.PoolHealth.stepKnown, Karp.Spec.PoolHealth.lost, Karp.Spec.PoolHealth.step, hl,
+        Bool.false_eq_true, if_false, if_true] at hr ⊢ <;> exact hr
+  | slowSuccess f =>
+    rw [C20_pool_slow_success_once, step_success]
+    have hr := registeredF_refines p s f h
+    cases hl : Karp.Spec.PoolHealth.lostSuccess s f <;>
+      simp only [Karp.Spec.PoolHealth.stepKnown, Karp.Spec.PoolHealth.lost, Karp.Spec.PoolHealth.step, hl,
+        Bool.false_eq_true, if_false, if_true] at hr ⊢ <;> exact hr
+  | failure f =>
+    rw [step_failure]
+    simpa [Karp.Spec.PoolHealth.stepKnown, Karp.Spec.PoolHealth.lost, Karp.Spec.PoolHealth.step]
+      using timedOut_refines p s h
+  | launchFailure f =>
+    rw [step_launchFailure]
+    simpa [Karp.Spec.PoolHealth.stepKnown, Karp.Spec.PoolHealth.lost, Karp.Spec.PoolHealth.step]
+      using timedOut_refines p s h
+  | lateFailure f =>
+    rw [step_lateFailure]
+    simpa [Karp.Spec.PoolHealth.stepKnown, Karp.Spec.PoolHealth.lost, Karp.Spec.PoolHealth.step]
+      using timedOut_refines p s h
   | noise => exact h
-  | resync => simpa [Karp.PoolHealth.step, Karp.Spec.PoolHealth.step, reconcile_idle p s h] using h
-  | poolEdit =>
-    exact reconcile_reset _ s.log h.tr (by simp [needsReset, h.condGen])
-  | classEdit =>
-    exact reconcile_reset _ s.log h.tr (by simp [needsReset, h.classObs])
+  | resync =>
+    simpa [Karp.PoolHealth.step, Karp.Spec.PoolHealth.stepKnown, Karp.Spec.PoolHealth.lost,
+      Karp.Spec.PoolHealth.step, reconcile_idle p s h] using h
+  | poolEdit f =>
+    exact reconcileF_refines _ s.log f h.tr (by simp [needsReset, h.condGen])
+  | classEdit f =>
+    exact reconcileF_refines _ s.log f h.tr (by simp [needsReset, h.classObs])
   | restart =>
     have hn : needsReset { p with t := Tracker.new } = false := by
       simp [needsReset, h.present, h.condGen, h.classObs]
-    simp only [Karp.PoolHealth.step, Karp.Spec.PoolHealth.step, reconcile, hn]
+    simp only [Karp.PoolHealth.step, Karp.Spec.PoolHealth.stepKnown, Karp.Spec.PoolHealth.lost,
+      Karp.Spec.PoolHealth.step, reconcile, hn]
     have hc := h.cond
     refine ⟨?_, h.present, h.cond, h.condGen, rfl, ?_⟩
     · simp only [hydrate, tracker_new_unknown, h.present, if_true, true_and]
@@ -330,24 +541,27 @@ theorem C20_pool_step (p : Pool) (s : SP) (e : Ev) (h : PoolRefines p s) :
     · intro hne
       cases hs : s.cond <;> simp_all
       decide
-  | success =>
-    have hd := dry_status p.t s.log true h.tr
-    simp only [Karp.PoolHealth.step, Karp.Spec.PoolHealth.step, registered, recordSuccess, hd, specHealth_eq]
-    refine ⟨refines_insert _ _ _ h.tr, by simp [h.present], ?_, ?_, h.classObs, by simp⟩
-    · have hc := h.cond
-      cases hh : Karp.Spec.PoolHealth.healthOf (s.log ++ [true]) <;> simp [toStatus, hc] <;> rfl
-    · cases hh : Karp.Spec.PoolHealth.healthOf (s.log ++ [true]) <;> simp [toStatus, h.condGen]
-  | failure =>
-    have hd := dry_status p.t s.log false h.tr
-    simp only [Karp.PoolHealth.step, Karp.Spec.PoolHealth.step, Karp.Spec.PoolHealth.recordFailure, timedOut,
-      recordFailure, hd, specHealth_eq]
-    refine ⟨refines_insert _ _ _ h.tr, by simp [h.present], ?_, ?_, h.classObs, by simp⟩
-    · have hc := h.cond
-      cases hh : Karp.Spec.PoolHealth.healthOf (s.log ++ [false]) <;> simp [toStatus, h.cond]
-      by_cases hf : p.cond = Cond.false_
-      · rw [hf] at hc; simp [hf, condSpec] at hc ⊢
-      · simp [hf, condSpec]
-    · cases hh : Karp.Spec.PoolHealth.healthOf (s.log ++ [false]) <;> simp [toStatus, h.condGen]
+
+/-- **C20_pool_step_partial** — the refinement to the specification as the property states it, for every
+    event that is not a registration whose NodePool call failed. -/
+theorem C20_pool_step_partial (p : Pool) (s : SP) (e : Ev) (h : PoolRefines p s)
+    (hl : Karp.Spec.PoolHealth.lost s e = false) :
+    PoolRefines (Karp.PoolHealth.step p e) (Karp.Spec.PoolHealth.step s e) := by
+  have := C20_pool_step_known p s e h
+  simpa [Karp.Spec.PoolHealth.stepKnown, hl] using this
+
+/-- **C20_pool_success_lost** — the negation of the full statement on concrete witnesses: a pool that saw
+    two failed launches and two registrations (condition False, window F,F,T,T) and then a third
+    registration whose status patch (the one that would set the condition True) conflicts: the window must be
+    F,T,T,T and the condition True; the controllers leave F,F,T,T and False.  And a fresh pool whose first
+    registration meets a failing `Get`: nothing is recorded at all. -/
+theorem C20_pool_success_lost :
+    Karp.PoolHealth.observations Pool.started
+        [.failure .none, .failure .none, .success .none, .success .none, .success .patch]
+      ≠ Karp.Spec.PoolHealth.observations .init
+        [.failure .none, .failure .none, .success .none, .success .none, .success .patch]
+    ∧ Karp.PoolHealth.observations Pool.started [.success .get] = [[0, 0, 1, 1]]
+    ∧ Karp.Spec.PoolHealth.observations .init [.success .get] = [[1, 1, 1, 1]] := by decide
 
 theorem pool_observe_eq (p : Pool) (s : SP) (h : PoolRefines p s) :
     Karp.PoolHealth.observe p = Karp.Spec.PoolHealth.observe s := by
@@ -359,45 +573,68 @@ theorem pool_observe_eq (p : Pool) (s : SP) (h : PoolRefines p s) :
 
 /-! ### All event sequences -/
 
-/-- **C20_pool_observations** (refinement, all event sequences of any length): the persisted condition,
-    the tracker status and both what-if verdicts observed after every event equal what the
-    operator-level specification prescribes. -/
-theorem C20_pool_observations (es : List Ev) :
+/-- **C20_pool_observations_known** (refinement, all event sequences of any length): the persisted
+    condition, the tracker status and both what-if verdicts observed after every event equal what the
+    operator-level specification prescribes once the registrations that met a failing NodePool call are
+    taken out of the script — the controllers deviate from the property in this one way and in no other. -/
+theorem C20_pool_observations_known (es : List Ev) :
     ∀ (p : Pool) (s : SP), PoolRefines p s →
-      Karp.PoolHealth.observations p es = Karp.Spec.PoolHealth.observations s es := by
+      Karp.PoolHealth.observations p es = Karp.Spec.PoolHealth.observationsKnown s es := by
   induction es with
   | nil => intro p s _; rfl
   | cons e es ih =>
     intro p s h
-    have hstep := C20_pool_step p s e h
-    simp only [Karp.PoolHealth.observations, Karp.Spec.PoolHealth.observations]
+    have hstep := C20_pool_step_known p s e h
+    simp only [Karp.PoolHealth.observations, Karp.Spec.PoolHealth.observationsKnown]
     rw [ih _ _ hstep, pool_observe_eq _ _ hstep]
 
-theorem C20_pool_observations_from_start (es : List Ev) :
-    Karp.PoolHealth.observations Pool.started es = Karp.Spec.PoolHealth.observations .init es :=
-  C20_pool_observations es _ _ started_refines
+theorem observationsKnown_noLoss (es : List Ev) :
+    ∀ s : SP, Karp.Spec.PoolHealth.noLoss s es = true →
+      Karp.Spec.PoolHealth.observationsKnown s es = Karp.Spec.PoolHealth.observations s es := by
+  induction es with
+  | nil => intro s _; rfl
+  | cons e es ih =>
+    intro s h
+    simp only [Karp.Spec.PoolHealth.noLoss, Bool.and_eq_true, Bool.not_eq_true'] at h
+    simp only [Karp.Spec.PoolHealth.observationsKnown, Karp.Spec.PoolHealth.observations,
+      Karp.Spec.PoolHealth.stepKnown, h.1, Bool.false_eq_true, if_false]
+    rw [ih _ h.2]
 
-theorem C20_pool_run (es : List Ev) :
+/-- **C20_pool_observations_partial** — the property as stated (full statement: the same without `hl`; it
+    fails, see `C20_pool_success_lost`): along every script in which no registration meets a failing
+    NodePool call — whatever the timing of the controller's looks, whatever faults the failed launches and
+    the edits meet — every observation equals what the specification prescribes. -/
+theorem C20_pool_observations_partial (es : List Ev) (p : Pool) (s : SP) (h : PoolRefines p s)
+    (hl : Karp.Spec.PoolHealth.noLoss s es = true) :
+    Karp.PoolHealth.observations p es = Karp.Spec.PoolHealth.observations s es := by
+  rw [C20_pool_observations_known es p s h, observationsKnown_noLoss es s hl]
+
+theorem C20_pool_observations_from_start_partial (es : List Ev)
+    (hl : Karp.Spec.PoolHealth.noLoss .init es = true) :
+    Karp.PoolHealth.observations Pool.started es = Karp.Spec.PoolHealth.observations .init es :=
+  C20_pool_observations_partial es _ _ started_refines hl
+
+theorem C20_pool_run_known (es : List Ev) :
     ∀ (p : Pool) (s : SP), PoolRefines p s →
-      PoolRefines (Karp.PoolHealth.run p es) (Karp.Spec.PoolHealth.run s es) := by
+      PoolRefines (Karp.PoolHealth.run p es) (Karp.Spec.PoolHealth.runKnown s es) := by
   induction es with
   | nil => intro p s h; exact h
-  | cons e es ih => intro p s h; exact ih _ _ (C20_pool_step p s e h)
+  | cons e es ih => intro p s h; exact ih _ _ (C20_pool_step_known p s e h)
 
-theorem spec_run_edit (es : List Ev) (e : Ev) (he : e = .poolEdit ∨ e = .classEdit) :
-    ∀ s0 : SP, Karp.Spec.PoolHealth.run s0 (es ++ [e]) = { cond := .unknown, log := [] } := by
+theorem spec_run_edit (es : List Ev) (e : Ev) (he : (∃ f, e = .poolEdit f) ∨ (∃ f, e = .classEdit f)) :
+    ∀ s0 : SP, Karp.Spec.PoolHealth.runKnown s0 (es ++ [e]) = { cond := .unknown, log := [] } := by
   induction es with
-  | nil => intro s0; rcases he with he | he <;> subst he <;> rfl
+  | nil => intro s0; rcases he with ⟨f, he⟩ | ⟨f, he⟩ <;> subst he <;> rfl
   | cons x xs ih => intro s0; exact ih _
 
 /-- **C20_pool_edit_forgets** — whatever happened before (any events, in particular outcomes recorded
-    while the condition was still Unknown), after a NodePool or NodeClass edit the window is empty and
-    the condition Unknown. -/
-theorem C20_pool_edit_forgets (es : List Ev) (e : Ev) (he : e = .poolEdit ∨ e = .classEdit) :
+    while the condition was still Unknown, lost registrations, faults), after a NodePool or NodeClass edit —
+    also one whose status patch failed and was retried — the window is empty and the condition Unknown. -/
+theorem C20_pool_edit_forgets (es : List Ev) (e : Ev) (he : (∃ f, e = .poolEdit f) ∨ (∃ f, e = .classEdit f)) :
     let p := Karp.PoolHealth.run Pool.started (es ++ [e])
     p.t.status = .unknown ∧ condCode p = 0 := by
   intro p
-  have h : PoolRefines p (Karp.Spec.PoolHealth.run .init (es ++ [e])) := C20_pool_run _ _ _ started_refines
+  have h : PoolRefines p (Karp.Spec.PoolHealth.runKnown .init (es ++ [e])) := C20_pool_run_known _ _ _ started_refines
   rw [spec_run_edit _ e he] at h
   refine ⟨(status_unknown_iff _ _ h.tr).mpr rfl, ?_⟩
   have hc := h.cond
@@ -405,21 +642,40 @@ theorem C20_pool_edit_forgets (es : List Ev) (e : Ev) (he : e = .poolEdit ∨ e 
   cases hp : p.cond <;> rw [hp] at hc <;> simp [condSpec] at hc ⊢
 
 /-- **C20_pool_outcome_enters_window** — a success or a failure is recorded whatever the condition says
-    (in particular a success while it is already True): the window afterwards is the old log plus that
+    (in particular a success while it is already True), however late the controller looks and whatever
+    NodePool call fails while a FAILURE is recorded: the window afterwards is the old log plus that
     outcome. -/
-theorem C20_pool_outcome_enters_window (p : Pool) (s : SP) (h : PoolRefines p s) :
-    Refines (Karp.PoolHealth.step p .success).t (s.log ++ [true]) ∧
-    Refines (Karp.PoolHealth.step p .failure).t (s.log ++ [false]) :=
-  ⟨(C20_pool_step p s .success h).tr, (C20_pool_step p s .failure h).tr⟩
+theorem C20_pool_outcome_enters_window (p : Pool) (s : SP) (f : Fault) (h : PoolRefines p s) :
+    Refines (Karp.PoolHealth.step p (.success .none)).t (s.log ++ [true]) ∧
+    Refines (Karp.PoolHealth.step p (.lateSuccess .none)).t (s.log ++ [true]) ∧
+    Refines (Karp.PoolHealth.step p (.failure f)).t (s.log ++ [false]) ∧
+    Refines (Karp.PoolHealth.step p (.launchFailure f)).t (s.log ++ [false]) ∧
+    Refines (Karp.PoolHealth.step p (.lateFailure f)).t (s.log ++ [false]) :=
+  ⟨(C20_pool_step_partial p s _ h rfl).tr, (C20_pool_step_partial p s _ h rfl).tr,
+   (C20_pool_step_partial p s _ h rfl).tr, (C20_pool_step_partial p s _ h rfl).tr,
+   (C20_pool_step_partial p s _ h rfl).tr⟩
 
 /-! non-vacuity: concrete scripts through every branch -/
-example : Karp.PoolHealth.observations Pool.started [.success, .failure, .success, .success, .success, .failure]
+example : Karp.PoolHealth.observations Pool.started
+    [.success .none, .failure .none, .success .none, .success .none, .success .none, .failure .none]
     = [[1,1,1,1],[1,1,1,2],[1,1,1,2],[1,1,1,2],[1,1,1,1],[1,1,1,2]] := by decide
-example : Karp.PoolHealth.observations Pool.started [.failure, .classEdit, .failure, .failure, .restart, .success, .poolEdit]
+example : Karp.PoolHealth.observations Pool.started
+    [.failure .none, .classEdit .none, .failure .none, .failure .none, .restart, .success .none, .poolEdit .none]
     = [[0,1,1,2],[0,0,1,1],[0,1,1,2],[2,2,2,2],[2,2,2,2],[2,2,2,2],[0,0,1,1]] := by decide
 example : Karp.PoolHealth.observe Pool.created = [3,0,1,1] := by decide
 /-- the repaired defect (fix: Liveness.Reconcile returns after its launch-timeout branch): one late launch
     failure is one failure -/
-example : Karp.PoolHealth.observations Pool.started [.lateFailure] = [[0, 1, 1, 2]] := by decide
+example : Karp.PoolHealth.observations Pool.started [.lateFailure .none] = [[0, 1, 1, 2]] := by decide
+/-- the failure that turns the pool False meets a conflicting status patch (F,T,F! then T,T): one slot, the
+    pool recovers after two registrations; late and repeatedly seen registrations; an edit whose patch fails -/
+example : Karp.PoolHealth.observations Pool.started
+    [.failure .none, .success .none, .failure .patch, .success .none, .success .none]
+    = [[0,1,1,2],[1,1,1,2],[2,2,2,2],[2,2,1,2],[1,1,1,2]] := by decide
+example : Karp.PoolHealth.observations Pool.started
+    [.failure .get, .lateSuccess .none, .slowSuccess .none, .slowSuccess .none, .launchFailure .patch, .classEdit .patch, .lateSuccess .none]
+    = [[0,1,1,2],[1,1,1,2],[1,1,1,2],[1,1,1,1],[1,1,1,2],[0,0,1,1],[1,1,1,1]] := by decide
+/-- the hypothesis of the `_partial` theorems is met by scripts with faults and odd timing -/
+example : Karp.Spec.PoolHealth.noLoss .init
+    [.failure .patch, .lateSuccess .none, .failure .get, .success .patch, .slowSuccess .none, .poolEdit .patch] = true := by decide
 
 end Karp.C20
